@@ -15,6 +15,8 @@ def make_pool(rng, size=None):
     size = size or rng.choice(deep([2, 3, 4, 5, 6, 8, 10, 12, 16, 24], [2, 3, 4, 6, 8, 12, 16, 24, 40, 64]))
     style = rng.choice(["fixed1", "fixed2", "fixed4", "fixed32", "var", "var", "var"])
     r = rng.random()
+    if 0.05 < r < 0.12:
+        style = "spine"
     if r < 0.01:
         style = "huge"
     elif r < 0.013:
@@ -37,6 +39,22 @@ def make_pool(rng, size=None):
         for _ in range(min(size, 5)):
             add(stem + bytes(byte() for _ in range(rng.choice([4, 20, 80]))))
         add(stem[:514] + bytes([stem[514] ^ 0x01]) + b"\x01")
+        return pool
+    if style == "spine":
+        # below a whole-byte prefix P: the byte 0xff (or 0x00) and its eight one-bit
+        # neighbours, i.e. a spine of eight branch nodes on the all-ones (all-zeros) side;
+        # P itself and a few relatives are in the pool too
+        P = bytes(byte() for _ in range(rng.choice([1, 1, 2])))
+        last = rng.choice([0xFF, 0xFF, 0x00])
+        tail = bytes(byte() for _ in range(rng.choice([0, 0, 1])))
+        add(P + bytes([last]) + tail)
+        for i in range(8):
+            add(P + bytes([last ^ (0x80 >> i)]) + tail)
+        add(P)
+        add(P[:-1] + bytes([P[-1] ^ 1]) + b"\x01")
+        while len(pool) < max(size, 12) and tries < 100:
+            tries += 1
+            add(bytes(byte() for _ in range(rng.randint(1, 3))))
         return pool
     if style == "bitcomb":
         # one key of 33-36 bytes plus a neighbour for (almost) every bit: paths of 260+ nodes
